@@ -510,6 +510,26 @@ def int_function_to_lean(repo, rel, cname, lean_name, fields, doc):
 
 
 
+def hex_table_to_lean(repo):
+    """the table `s_hex[256]` of muggle_hex_from_bytes (encoding/hex.c): two-character string literals"""
+    src = open(os.path.join(repo, "muggle/c/encoding/hex.c"), errors="replace").read()
+    m = re.search(r"s_hex\s*\[\s*\]\s*=\s*\{(.*?)\}\s*;", src, flags=re.S)
+    if not m:
+        raise Unsupported("table s_hex not found in muggle/c/encoding/hex.c")
+    body = re.sub(r"/\*.*?\*/", " ", m.group(1), flags=re.S)
+    body = re.sub(r"//[^\n]*", " ", body)
+    items = [x.strip() for x in body.split(",") if x.strip()]
+    pairs = []
+    for it in items:
+        mm = re.match(r'"([^"\\]{2})"$', it)
+        if not mm:
+            raise Unsupported("s_hex entry %r is not a two-character literal" % it)
+        pairs.append("(%d, %d)" % (ord(mm.group(1)[0]), ord(mm.group(1)[1])))
+    rows = [", ".join(pairs[i:i + 16]) for i in range(0, len(pairs), 16)]
+    return ("/-- the table `s_hex` of `muggle_hex_from_bytes` (encoding/hex.c), as (first char, second char) -/\n"
+            "def sHex : List (Nat × Nat) := [\n  " + ",\n  ".join(rows) + "]\n")
+
+
 REQUESTS = [
     ("macro", "muggle/c/base/utils.h", "MUGGLE_IS_POW_OF_2", "isPow2Macro", 64, "`MUGGLE_IS_POW_OF_2` (base/utils.h) on a 64-bit operand"),
     ("func", "muggle/c/base/utils.c", "muggle_next_pow_of_2", "nextPow2", 64, "`muggle_next_pow_of_2` (base/utils.c)"),
@@ -544,6 +564,7 @@ def generate(repo):
     for rel, cname, lname, fields in INT_REQUESTS:
         out.append(int_function_to_lean(repo, rel, cname, lname, fields,
                                         "`%s` (%s) over the fields %s of the buffer" % (cname, rel, ", ".join(fields))))
+    out.append(hex_table_to_lean(repo))
     out.append("end MgModel.Generated")
     return "\n".join(out) + "\n"
 
